@@ -58,6 +58,11 @@ def generate(rng, tier):
                          "rows": gen_rows(rng), "kill_frac": rng.choice([None, None, None, rng.random()])})
         last = {"append": mode_append, "final": rng.random() < 0.7, "rows": gen_rows(rng)}
         hist.append({"prior": runs, "last": last})
+    # a stale, longer .tmp from an interim or killed earlier run followed by a shorter final result
+    for i in range(3 if tier == "quick" else 60):
+        big = [["g%d" % j, str(40 - j)] for j in range(4)]
+        prior = [{"append": False, "final": False, "rows": big, "kill_frac": rng.choice([None, 0.95])}]
+        hist.append({"prior": prior, "last": {"append": False, "final": True, "rows": gen_rows(rng)[:rng.choice([0, 1, 2])]}})
     # corpus: torn append header
     hist.insert(0, {"prior": [{"append": True, "final": True, "rows": [["g0", "3"]], "kill_frac": 0.3}], "last": {"append": True, "final": True, "rows": [["g1", "7"]]}})
     _state["hist"] = hist
@@ -173,8 +178,11 @@ def vf_q(c, o):
 
 
 def classify(case, ob, detail):
+    # the recorded finding is a TORN header only: the kill left a non-empty strict prefix of the header line
     if case["append"] and "header is not there exactly once" in str(detail):
-        return "append_kill_inside_header"
+        at_kill = bytes.fromhex(ob["after"]["out"]) if ob["after"]["out"] is not None else b""
+        if 0 < len(at_kill) < len(HEADER) and HEADER.startswith(at_kill):
+            return "append_kill_inside_header"
     return None
 
 
